@@ -150,16 +150,16 @@ impl<'a> AsciiDecLit<'a> {
 
     /// Convert the leading sequence of decimal digits in `self` (if any) into
     /// an int and accumulate it into `coeff`.
-    // The function uses wrapping_mul and wrapping_add, so overflow can
-    // happen; it must be checked later!
+    // The function uses saturating_mul and saturating_add, so on overflow
+    // `coeff` sticks to u128::MAX; this must be checked later!
     fn accum_coeff(&mut self, coeff: &mut u128) -> usize {
         let start_len = self.len();
         // First, try chunks of 8 digits
         while let Some(k) = self.read_u64() {
             if chunk_contains_8_digits(k) {
                 *coeff = coeff
-                    .wrapping_mul(100000000)
-                    .wrapping_add(chunk_to_u64(k) as u128);
+                    .saturating_mul(100000000)
+                    .saturating_add(chunk_to_u64(k) as u128);
                 // Safety: safe because of call to self.read_u64 above
                 unsafe {
                     self.skip_n(8);
@@ -172,7 +172,7 @@ impl<'a> AsciiDecLit<'a> {
         while let Some(c) = self.first() {
             let d = c.wrapping_sub(b'0');
             if d < 10 {
-                *coeff = coeff.wrapping_mul(10).wrapping_add(d as u128);
+                *coeff = coeff.saturating_mul(10).saturating_add(d as u128);
                 // Safety: safe because of call to self.first above
                 unsafe {
                     self.skip_1();
@@ -262,15 +262,9 @@ pub fn str_to_dec(lit: &str) -> Result<(i128, isize), ParseDecimalError> {
     if n_digits == 0 {
         return Err(ParseDecimalError::Invalid);
     }
-    // check for overflow
-    // 1. 10^e > i128::MAX for e > 39
-    // 2. e = 39 && coeff < 10³⁸ (overflow occured during accumulation)
-    // 3. coeff > i128::MAX
-    if n_digits > 39
-        || n_digits == 39
-            && coeff < 100000000000000000000000000000000000000_u128
-        || coeff > i128::MAX as u128
-    {
+    // check for overflow (an overflow during accumulation left
+    // coeff == u128::MAX)
+    if coeff > i128::MAX as u128 {
         return Err(ParseDecimalError::InternalOverflow);
     }
     let mut exp = 0_isize;
@@ -309,8 +303,9 @@ pub fn str_to_dec(lit: &str) -> Result<(i128, isize), ParseDecimalError> {
     if !lit.is_empty() {
         return Err(ParseDecimalError::Invalid);
     }
-    exp -= n_frac_digits as isize;
-    if -exp > crate::MAX_N_FRAC_DIGITS as isize {
+    // n_frac_digits is not limited here (leading zeros), so avoid overflow
+    exp = exp.saturating_sub(n_frac_digits as isize);
+    if exp < -(crate::MAX_N_FRAC_DIGITS as isize) {
         return Err(ParseDecimalError::FracDigitLimitExceeded);
     }
     if is_negative {
